@@ -7,7 +7,7 @@
 //!   Q3 LIMIT k  : k' = min(k,|Expect|) rows, sub-bag        Q4 ORDER BY a [DESC] LIMIT k (TopK /
 //!   dynamic filter): key sequence = first k sorted keys of Expect, rows sub-bag of Expect.
 use crate::util::*;
-use arrow::array::{ArrayRef, Int64Array, StringArray};
+use arrow::array::{Array, ArrayRef, Int64Array, StringArray};
 use arrow::datatypes::{DataType, Field, Schema};
 use arrow::record_batch::RecordBatch;
 use bytes::Bytes;
@@ -19,7 +19,6 @@ use parquet::arrow::ArrowWriter;
 use parquet::file::properties::{EnabledStatistics, WriterProperties};
 use serde_json::{json, Value};
 use std::sync::Arc;
-use vcommon::util::{arg, read_ndjson};
 
 pub fn write_parquet(batch: &RecordBatch, lay: &Value) -> Vec<u8> {
     let stats = match lay["stats"].as_str().unwrap_or("page") { "none" => EnabledStatistics::None, "chunk" => EnabledStatistics::Chunk, _ => EnabledStatistics::Page };
@@ -45,21 +44,47 @@ fn str_col(rows: &[Vec<Value>], c: usize) -> ArrayRef {
     Arc::new(StringArray::from(rows.iter().map(|r| r[c].as_str().map(|s| s.to_string())).collect::<Vec<_>>()))
 }
 
+/// physical file: a, b, s, st{p, q = s}, l = [a, b]   (logical row <<a, b, s, p>>)
+fn file_batch(rows: &[Vec<Value>]) -> RecordBatch {
+    use arrow::array::{ListArray, StructArray};
+    use arrow::datatypes::Int64Type;
+    let st = StructArray::from(vec![
+        (Arc::new(Field::new("p", DataType::Int64, true)), int_col(rows, 3)),
+        (Arc::new(Field::new("q", DataType::Utf8, true)), str_col(rows, 2)),
+    ]);
+    let l = ListArray::from_iter_primitive::<Int64Type, _, _>(rows.iter().map(|r| Some(vec![r[0].as_i64(), r[1].as_i64()])));
+    let schema = Arc::new(Schema::new(vec![
+        Field::new("a", DataType::Int64, true), Field::new("b", DataType::Int64, true), Field::new("s", DataType::Utf8, true),
+        Field::new("st", st.data_type().clone(), true), Field::new("l", l.data_type().clone(), true),
+    ]));
+    RecordBatch::try_new(schema, vec![int_col(rows, 0), int_col(rows, 1), str_col(rows, 2), Arc::new(st), Arc::new(l)]).unwrap()
+}
+
 const SWITCHES: [&str; 7] = ["pushdown_filters", "reorder_filters", "enable_page_index", "pruning", "bloom_filter_on_read", "force_filter_selections", "schema_force_view_types"];
 
-async fn session(cfg_bits: &Value, data: &[u8], tp: usize) -> SessionContext {
-    let mut cfg = SessionConfig::new().with_target_partitions(tp).with_batch_size(3);
+async fn session(cfg_bits: &Value, files: &[Vec<u8>], tp: usize, declare_order: bool) -> SessionContext {
+    let mut cfg = SessionConfig::new().with_target_partitions(tp).with_batch_size(3)
+        .set_bool("datafusion.execution.collect_statistics", cfg_bits["collect_statistics"].as_bool().unwrap_or(true));
     for s in SWITCHES {
         cfg = cfg.set_bool(&format!("datafusion.execution.parquet.{s}"), cfg_bits[s].as_bool().unwrap_or(false));
     }
     if cfg_bits["predicate_cache_zero"].as_bool().unwrap_or(false) {
         cfg = cfg.set_usize("datafusion.execution.parquet.max_predicate_cache_size", 0);
     }
+    if cfg_bits["small_metadata_hint"].as_bool().unwrap_or(false) {
+        cfg = cfg.set_usize("datafusion.execution.parquet.metadata_size_hint", 16);
+    }
     let ctx = SessionContext::new_with_config(cfg);
     let mem: Arc<dyn ObjectStore> = Arc::new(InMemory::new());
-    mem.put(&Path::from("t/f0.parquet"), PutPayload::from(Bytes::from(data.to_vec()))).await.unwrap();
+    for (i, data) in files.iter().enumerate() {
+        mem.put(&Path::from(format!("t/f{i}.parquet")), PutPayload::from(Bytes::from(data.clone()))).await.unwrap();
+    }
     ctx.register_object_store(&url::Url::parse("mem://c24").unwrap(), mem);
-    ctx.register_parquet("t", "mem://c24/t/", ParquetReadOptions::default()).await.expect("register parquet");
+    let mut opts = ParquetReadOptions::default();
+    if declare_order {
+        opts = opts.file_sort_order(vec![vec![col("a").sort(true, false)]]);
+    }
+    ctx.register_parquet("t", "mem://c24/t/", opts).await.expect("register parquet");
     ctx
 }
 
@@ -71,45 +96,72 @@ async fn run_sql(ctx: &SessionContext, sql: &str) -> Result<(Vec<Vec<Value>>, St
     Ok((batches_rows(&batches), m))
 }
 
+/// sum over all occurrences of `name=<x>` (plain counter) or `name=<x> total → <y> matched` (pruned = x - y)
 fn metric(m: &str, name: &str) -> u64 {
-    // "<name>=<n> total → <k> matched" or "<name>=<n>"
     let mut total = 0;
-    for part in m.split(name).skip(1) {
-        if let Some(rest) = part.strip_prefix('=') {
-            let num: String = rest.chars().take_while(|c| c.is_ascii_digit()).collect();
-            total += num.parse::<u64>().unwrap_or(0);
+    let pat = format!("{name}=");
+    for part in m.split(pat.as_str()).skip(1) {
+        let num: String = part.chars().take_while(|c| c.is_ascii_digit()).collect();
+        let x = num.parse::<u64>().unwrap_or(0);
+        let rest = &part[num.len()..];
+        if let Some(r2) = rest.strip_prefix(" total → ") {
+            let y: String = r2.chars().take_while(|c| c.is_ascii_digit()).collect();
+            total += x.saturating_sub(y.parse::<u64>().unwrap_or(0));
+        } else {
+            total += x;
         }
     }
     total
 }
 
+const METRICS: [&str; 12] = ["files_ranges_pruned_statistics", "row_groups_pruned_statistics", "row_groups_pruned_bloom_filter",
+    "row_groups_pruned_dynamic_filter", "page_index_pages_pruned", "page_index_rows_pruned", "page_index_pages_skipped_by_fully_matched",
+    "limit_pruned_row_groups", "pushdown_rows_pruned", "pushdown_rows_matched", "predicate_cache_records", "page_index_load_skipped"];
+
+fn sort_keys(keys: &mut Vec<Option<i64>>, desc: bool) {
+    keys.sort_by(|x, y| match (x, y) { (None, None) => std::cmp::Ordering::Equal, (None, _) => std::cmp::Ordering::Greater, (_, None) => std::cmp::Ordering::Less,
+        (Some(x), Some(y)) => if desc { y.cmp(x) } else { x.cmp(y) } });
+}
+
 async fn one_case(acc: &mut Acc, case: &Value) {
     let pool = pool_of(case);
-    let rows = spec_rows(&case["rows"], &pool);
-    let expected = spec_rows(&case["expect"], &pool);
-    let schema = Arc::new(Schema::new(vec![Field::new("a", DataType::Int64, true), Field::new("b", DataType::Int64, true), Field::new("s", DataType::Utf8, true)]));
-    let batch = RecordBatch::try_new(schema, vec![int_col(&rows, 0), int_col(&rows, 1), str_col(&rows, 2)]).unwrap();
-    let data = write_parquet(&batch, &case["lay"]);
+    let files_rows: Vec<Vec<Vec<Value>>> = case["files"].as_array().unwrap().iter().map(|f| spec_rows(f, &pool)).collect();
+    let nrows: usize = files_rows.iter().map(|f| f.len()).sum();
+    // specification rows <<ri, a, b, s, p>> -> query shape <<ri, a, b, s, st.p, st.q, l[1], l[2]>>
+    let expected: Vec<Vec<Value>> = spec_rows(&case["expect"], &pool).into_iter()
+        .map(|r| vec![r[0].clone(), r[1].clone(), r[2].clone(), r[3].clone(), r[4].clone(), r[3].clone(), r[1].clone(), r[2].clone()]).collect();
+    let data: Vec<Vec<u8>> = files_rows.iter().map(|rows| write_parquet(&file_batch(rows), &case["lay"])).collect();
     let pred = case["sql"].as_str().unwrap();
     let k = case["k"].as_u64().unwrap_or(2) as usize;
+    let j = case["j"].as_i64().unwrap_or(2);
+    let desc = case["desc"].as_bool().unwrap_or(false);
     let n_exp = expected.len();
+    let sorted_files = case["arrange"].as_array().unwrap().iter().take(files_rows.len()).all(|a| a == "sorted" || a == "clustered");
+    const COLS: &str = "file_row_index() AS ri, a, b, s, st['p'], st['q'], l[1], l[2]";
     for cfg_bits in case["configs"].as_array().unwrap() {
         let tp = cfg_bits["tp"].as_u64().unwrap_or(1) as usize;
-        let ctx = session(cfg_bits, &data, tp).await;
+        let declare = sorted_files && cfg_bits["declare_order"].as_bool().unwrap_or(false);
+        let ctx = session(cfg_bits, &data, tp, declare).await;
         let base = json!({"kind":"parquet","case":case,"config":cfg_bits});
-        // Q1
-        let queries: Vec<(String, &str)> = vec![
-            (format!("SELECT file_row_index() AS ri, a, b, s FROM t WHERE {pred}"), "full"),
-            (format!("SELECT s FROM t WHERE {pred}"), "proj"),
-            (format!("SELECT file_row_index() AS ri, a, b, s FROM t WHERE {pred} LIMIT {k}"), "limit"),
-            (format!("SELECT file_row_index() AS ri, a, b, s FROM t WHERE {pred} ORDER BY a {} NULLS LAST LIMIT {k}", if case["desc"].as_bool().unwrap_or(false) {"DESC"} else {"ASC"}), "topk"),
+        let dir = if desc {"DESC"} else {"ASC"};
+        let mut queries: Vec<(String, &str)> = vec![
+            (format!("SELECT {COLS} FROM t WHERE {pred}"), "full"),
+            (format!("SELECT st['q'], l[2] FROM t WHERE {pred}"), "proj"),
+            (format!("SELECT {COLS} FROM t WHERE {pred} LIMIT {k}"), "limit"),
+            (format!("SELECT {COLS} FROM t WHERE {pred} ORDER BY a {dir} NULLS LAST LIMIT {k}"), "topk"),
+            (format!("SELECT {COLS} FROM t WHERE {pred} AND file_row_index() >= {j}"), "rowidx"),
         ];
+        if declare {
+            queries.push((format!("SELECT {COLS} FROM t WHERE {pred} ORDER BY a {dir} NULLS {}", if desc {"FIRST"} else {"LAST"}), "sorted"));
+            acc.bump("declared_order_scans", 1);
+        }
         for (sql, kind) in queries {
             acc.evaluations += 1;
             let r = run_sql(&ctx, &sql).await;
             let (got, m) = match r {
                 Ok(x) => x,
                 Err(e) => {
+                    if kind == "rowidx" && !e.contains("Parquet error") { acc.bump("rowidx_filter_rejected_by_engine", 1); continue; }
                     let mut v = base.clone();
                     v["sql"] = json!(sql); v["error"] = json!(e);
                     v["message"] = json!(format!("Parquet scan failed: {e}"));
@@ -117,37 +169,44 @@ async fn one_case(acc: &mut Acc, case: &Value) {
                     continue;
                 }
             };
-            if kind == "full" {
-                let rg_pruned = metric(&m, "row_groups_pruned_statistics") ; // total examined; informative only
-                acc.bump("metric_row_groups_pruned_statistics_sum", rg_pruned);
-                acc.bump("metric_pushdown_rows_pruned_sum", metric(&m, "pushdown_rows_pruned"));
-                acc.bump("metric_page_index_rows_pruned_sum", metric(&m, "page_index_rows_pruned"));
-                if std::env::var("VERIF_DEBUG").is_ok() { eprintln!("{sql}\n{m}"); }
-            }
+            for name in METRICS { acc.bump(&format!("metric_{name}/{kind}"), metric(&m, name)); }
+            if m.contains("reverse_row_groups=true") { acc.bump("plans_with_reverse_row_groups", 1); }
+            if m.contains("sort_order_for_reorder") { acc.bump("plans_with_sort_order_for_reorder", 1); }
+            if kind == "sorted" && !m.contains("SortExec") { acc.bump("sorted_queries_without_sortexec", 1); }
+            if m.contains("DynamicFilter") { acc.bump("plans_with_dynamic_filter", 1); }
+            if std::env::var("VERIF_DEBUG").is_ok() { eprintln!("{sql}\n{m}"); }
             let problem: Option<String> = match kind {
                 "full" => { let (mi, ex) = bag_diff(&expected, &got); if mi.is_empty() && ex.is_empty() { None } else { Some(format!("missing {mi:?} unexpected {ex:?}")) } }
                 "proj" => {
-                    let e: Vec<Vec<Value>> = expected.iter().map(|r| vec![r[3].clone()]).collect();
+                    let e: Vec<Vec<Value>> = expected.iter().map(|r| vec![r[5].clone(), r[7].clone()]).collect();
+                    let (mi, ex) = bag_diff(&e, &got); if mi.is_empty() && ex.is_empty() { None } else { Some(format!("missing {mi:?} unexpected {ex:?}")) } }
+                "rowidx" => {
+                    let e: Vec<Vec<Value>> = expected.iter().filter(|r| r[0].as_i64().unwrap() >= j).cloned().collect();
                     let (mi, ex) = bag_diff(&e, &got); if mi.is_empty() && ex.is_empty() { None } else { Some(format!("missing {mi:?} unexpected {ex:?}")) } }
                 "limit" => {
                     let (_, ex) = bag_diff(&expected, &got);
                     if got.len() != k.min(n_exp) { Some(format!("{} rows, expected {}", got.len(), k.min(n_exp))) } else if !ex.is_empty() { Some(format!("rows not in Filter(all rows): {ex:?}")) } else { None } }
-                _ => {
-                    // expected key sequence
-                    let desc = case["desc"].as_bool().unwrap_or(false);
+                "sorted" => {
+                    // NULLS FIRST for DESC / NULLS LAST for ASC = the reverse / natural declared order
                     let mut keys: Vec<Option<i64>> = expected.iter().map(|r| r[1].as_i64()).collect();
-                    keys.sort_by(|x, y| match (x, y) { (None, None) => std::cmp::Ordering::Equal, (None, _) => std::cmp::Ordering::Greater, (_, None) => std::cmp::Ordering::Less,
-                        (Some(x), Some(y)) => if desc { y.cmp(x) } else { x.cmp(y) } });
+                    sort_keys(&mut keys, false);
+                    if desc { keys.reverse(); }
+                    let got_keys: Vec<Option<i64>> = got.iter().map(|r| r[1].as_i64()).collect();
+                    let (mi, ex) = bag_diff(&expected, &got);
+                    if got_keys != keys { Some(format!("key sequence {got_keys:?}, expected {keys:?}")) } else if !mi.is_empty() || !ex.is_empty() { Some(format!("missing {mi:?} unexpected {ex:?}")) } else { None } }
+                _ => {
+                    let mut keys: Vec<Option<i64>> = expected.iter().map(|r| r[1].as_i64()).collect();
+                    sort_keys(&mut keys, desc);
                     keys.truncate(k);
                     let got_keys: Vec<Option<i64>> = got.iter().map(|r| r[1].as_i64()).collect();
                     let (_, ex) = bag_diff(&expected, &got);
                     if got_keys != keys { Some(format!("key sequence {got_keys:?}, expected {keys:?}")) } else if !ex.is_empty() { Some(format!("rows not in Filter(all rows): {ex:?}")) } else { None } }
             };
-            if n_exp > 0 && n_exp < rows.len() {
-                acc.nontrivial.insert(format!("{}|{}|{}|{}|{}", serde_json::to_string(&case["rows"]).unwrap(), case["lay"], pred, cfg_bits, kind));
+            if n_exp > 0 && n_exp < nrows {
+                acc.nontrivial.insert(format!("{}|{}|{}|{}|{}", serde_json::to_string(&case["files"]).unwrap(), case["lay"], pred, cfg_bits, kind));
             }
-            if acc.samples.len() < 2 && kind == "full" && n_exp > 0 && n_exp < rows.len() && cfg_bits["pushdown_filters"] == true {
-                acc.samples.push(json!({"sql":sql,"layout":case["lay"],"config":cfg_bits,"rows_in_file":rows.len(),"expected":expected,"got":got,"need_row_groups":case["need_rg"],"row_groups":case["n_rg"]}));
+            if acc.samples.len() < 2 && kind == "full" && n_exp > 0 && n_exp < nrows && cfg_bits["pushdown_filters"] == true {
+                acc.samples.push(json!({"sql":sql,"layout":case["lay"],"config":cfg_bits,"rows_in_files":nrows,"expected":expected,"got":got,"need_row_groups":case["need_rg"],"row_groups":case["n_rg"]}));
             }
             if let Some(p) = problem {
                 let mut v = base.clone();
